@@ -107,9 +107,10 @@ func (lp *Listpack) Next() []byte {
 		negmax = math.MaxUint64 // uint64_max
 		lp.p += lpEncodeBacklen(1 + 8)
 	} else {
-		uval = 12345678900000000 + uint64(fireByte)
-		negstart = math.MaxUint64
-		negmax = 0
+		// 0xFF is the end of the list pack and 0xF5-0xFE are not encodings : the caller asks for more
+		// elements than there are (corrupted counters), returning a value without moving on would
+		// make it spin for ever
+		panic(fmt.Errorf("list pack, no element at offset %d : first byte %x", inx, fireByte))
 	}
 
 	/* We reach this code path only for integer encodings.
